@@ -105,6 +105,8 @@ struct Runner<'a> {
     walks: u64,
     /// the last event that left `initialized` false although options were negotiated
     uninit_cause: &'static str,
+    /// booking the umount half of an `X` step (the mount half already happened in the real Vfs)
+    pair_first: bool,
 }
 
 fn norm_components(path: &str) -> Option<Vec<Option<String>>> {
@@ -139,6 +141,7 @@ impl<'a> Runner<'a> {
             evicted: false,
             walks: 0,
             uninit_cause: "after-destroy",
+            pair_first: false,
         }
     }
 
@@ -152,12 +155,48 @@ impl<'a> Runner<'a> {
         format!("{} ops={}", self.line_cfg, self.steps.join(";"))
     }
 
-    /// execute one step on the primary world (and the never-restored twin), evaluate the oracles
+    /// execute one step of the history.  `X:<umount path>:<mount fields>` runs an UMOUNT and a MOUNT
+    /// on two threads (the umount parked in its backend's destroy() while the mount is attempted)
+    /// and then books both like the sequential steps `u:..` and `m:..`, which is what the model runs.
     fn exec(&mut self, st: &str) {
+        if st.starts_with("X:") {
+            if self.panicked {
+                return;
+            }
+            let f: Vec<&str> = st.split(':').collect();
+            if f.len() < 7 {
+                return;
+            }
+            let mf: Vec<&str> = std::iter::once("m").chain(f[2..].iter().copied()).collect();
+            self.steps.push(st.to_string());
+            self.out.stat("step:X");
+            if catch_unwind(AssertUnwindSafe(|| self.w.run_pair(f[1], &mf))).is_err() {
+                self.panicked = true;
+                if !self.overflow_config() {
+                    let p = self.prop.clone();
+                    self.hit(&p, format!("{}:panic:X", p), format!("step `{}` panicked", st));
+                }
+                return;
+            }
+            // while the umount half is booked the real Vfs already holds the mount of the second
+            // half: oracles that probe the live Vfs wait until both halves are booked
+            self.pair_first = true;
+            self.exec_step(&format!("u:{}", f[1]), false);
+            self.pair_first = false;
+            self.exec_step(&mf.join(":"), false);
+            return;
+        }
+        self.exec_step(st, true)
+    }
+
+    /// execute one step on the primary world (and the never-restored twin), evaluate the oracles
+    fn exec_step(&mut self, st: &str, record: bool) {
         if self.panicked {
             return;
         }
-        self.steps.push(st.to_string());
+        if record {
+            self.steps.push(st.to_string());
+        }
         let pre_live = self.w.live.clone();
         let gmap = if self.w.cfg.gmap_raw.2 == 0 { None } else { Some(self.w.cfg.gmap_raw) };
         let no_open = self.w.vfs.options().no_open;
@@ -171,6 +210,9 @@ impl<'a> Runner<'a> {
                 StepOut { res: "panic".into(), calls }
             }
         };
+        if so.res == "panic" {
+            self.panicked = true; // a half of an `X` step that panicked on its own thread
+        }
         self.outs.push(so.show());
         let f: Vec<&str> = st.split(':').collect();
         let kind = if f[0] == "r" || f[0] == "R" { f[1].to_string() } else { f[0].to_string() };
@@ -248,6 +290,11 @@ impl<'a> Runner<'a> {
                     maps.push(m);
                 }
             }
+            if f[0] == "X" && f.len() > 4 {
+                if let Some(m) = parse_map(f[4]) {
+                    maps.push(m);
+                }
+            }
         }
         maps.iter().any(bad)
     }
@@ -306,7 +353,9 @@ impl<'a> Runner<'a> {
                     self.out.stat("umount:orphans-a-mount");
                 }
             }
-            self.crossing_check();
+            if !self.pair_first {
+                self.crossing_check();
+            }
         } else {
             self.out.stat(&format!("umount:{}", so.res.split('.').next().unwrap_or("")));
         }
@@ -1126,6 +1175,13 @@ fn gen_case(r: &mut Prng, prop: &str, n: u64, out: &mut Out) -> (String, String,
             }
         } else {
             match g.r.below(100) {
+                0..=1 if !run.w.live.is_empty() && prop != "C19" => {
+                    // a mount racing with the teardown of another mount
+                    let lives: Vec<String> = run.w.live.values().map(|l| l.path.clone()).collect();
+                    let up = g.r.pick(&lives).clone();
+                    let m = g.mount_step(&run.w, prop, None);
+                    if up.contains(':') || !m.starts_with("m:") { m } else { format!("X:{}:{}", up, &m[2..]) }
+                }
                 0..=17 => g.mount_step(&run.w, prop, None),
                 18..=24 => {
                     let lives: Vec<String> = run.w.live.values().map(|l| l.path.clone()).collect();
